@@ -22,6 +22,14 @@ def tier() -> str:
     return t if t in ("quick", "thorough") else "quick"
 
 
+def distrust() -> bool:
+    """VERIF_DISTRUST_FACTS=1 (self-test of the machinery, never used by a registered command): obligations that are decided by
+    a fact about the source run their replay even though the fact holds.  On a tree where the property holds every such
+    replay must end 'inconclusive' - a VIOLATION would be a wrong expectation in the replay, i.e. a false alarm waiting for a
+    behaviour-preserving refactoring."""
+    return bool(os.environ.get("VERIF_DISTRUST_FACTS"))
+
+
 def seed() -> int:
     try:
         return int(os.environ.get("VERIF_SEED", "0"))
